@@ -66,6 +66,9 @@ Qed.
 Lemma run_steps p evs q : run (state_machine p) evs q -> steps p evs q.
 Proof. destruct evs as [|e evs]; cbn; [tauto|]. intros (sp & p1 & H1 & H2). econstructor; eauto. Qed.
 
+Lemma run_eq (f g : sres) evs q : f = g -> run g evs q -> run f evs q.
+Proof. intros ->. auto. Qed.
+
 Lemma run_one f e sp p1 : f = Ok ((e, sp), p1) -> run f [e] p1.
 Proof. intros ->. cbn. exists sp, p1. split; [reflexivity|constructor]. Qed.
 
@@ -859,7 +862,7 @@ Proof.
     exists (set_state p3 SFlowSequenceEntry). split; [|eapply view_set_state; exact V3].
     eapply run_cons; [exact E1|].
     eapply steps_app; [eapply steps_app|].
-    + apply run_steps. rewrite E2. exact R2.
+    + apply run_steps. eapply run_eq; [exact E2 | exact R2].
     + apply run_steps. rewrite (sm_fsem_value p2 (view_state _ _ _ _ _ _ _ _ V2)). exact R3.
     + econstructor; [|constructor].
       rewrite (sm_fsem_end p3 m (view_state _ _ _ _ _ _ _ _ V3)). reflexivity.
